@@ -159,3 +159,73 @@ pub fn culprit(spec: &Spec, vals: &[f64], sym: Symptom) -> String {
 pub fn delivered_values(sc: &Scenario, r: u8) -> Vec<f64> {
     sc.events.iter().filter_map(|e| if let Ev::D { r: rr, v, .. } = e { if *rr == r { Some(*v) } else { None } } else { None }).collect()
 }
+
+/// Largest magnitude any node of a tree may be *fed* for the run to count as "finite input of moderate
+/// magnitude": products and squares of larger values overflow f64 by construction (1e100^2 is still
+/// finite, 1e155^2 is not). There is no lower bound: a tiny non-zero value is an ordinary number.
+pub const MAX_NODE_INPUT: f64 = 1.0e100;
+
+/// Triage of a non-finite value or a panic: find the deepest subtree that shows the symptom on its own
+/// and ask whether one of its children (stand-alone, same raw values) fed it a value beyond
+/// MAX_NODE_INPUT. If so the run left the property's domain inside the chain (e.g. a rate of change over
+/// a base of 1e-200 is 1e202 percent, and the standard deviation of that overflows) and is not a finding.
+pub fn fed_immoderate_magnitude(spec: &Spec, vals: &[f64], sym: Symptom) -> bool {
+    fn outputs(spec: &Spec, vals: &[f64]) -> Vec<f64> {
+        let mut ctx = crate::dynview::Ctx::default();
+        let mut out = vec![];
+        let mut v = match crate::engine::try_build::<f64>(spec, &mut ctx) {
+            Ok(v) => v,
+            Err(_) => return out,
+        };
+        for x in vals {
+            if crate::engine::try_update(&mut v, *x).is_err() {
+                break;
+            }
+            match crate::engine::try_last(&v) {
+                Ok(Some(o)) => out.push(o),
+                Ok(None) => {}
+                Err(_) => break,
+            }
+        }
+        out
+    }
+    fn find<'a>(spec: &'a Spec, vals: &[f64], sym: Symptom, probe: &dyn Fn(&Spec, &[f64], Symptom) -> bool) -> Option<&'a Spec> {
+        let view_kids: &[Spec] = match spec.k {
+            K::Pfe | K::Eft => &spec.kids[..1],
+            _ => &spec.kids[..],
+        };
+        for k in view_kids {
+            if let Some(c) = find(k, vals, sym, probe) {
+                return Some(c);
+            }
+        }
+        if spec.k.arity() > 0 && probe(spec, vals, sym) {
+            return Some(spec);
+        }
+        None
+    }
+    let probe = |s: &Spec, v: &[f64], sym: Symptom| -> bool { culprit(s, v, sym) != "?" && culprit_is_root(s, v, sym) };
+    let node = match find(spec, vals, sym, &probe) {
+        Some(n) => n,
+        None => return false,
+    };
+    let view_kids: &[Spec] = match node.k {
+        K::Pfe | K::Eft => &node.kids[..1],
+        _ => &node.kids[..],
+    };
+    for k in view_kids {
+        if k.k.arity() == 0 {
+            continue;
+        }
+        if outputs(k, vals).iter().any(|o| o.is_finite() && o.abs() > MAX_NODE_INPUT) {
+            return true;
+        }
+    }
+    false
+}
+
+/// does `spec` itself (not one of its view-position subtrees) show the symptom?
+fn culprit_is_root(spec: &Spec, vals: &[f64], sym: Symptom) -> bool {
+    let c = culprit(spec, vals, sym);
+    c.starts_with(spec.k.name())
+}
